@@ -201,12 +201,18 @@ def gen_case(rng, idx: int):
         other = rng.choice([l for l in ("python", "typescript", "rust") if l != LANGUAGE[lang]])
         overrides.append({"language": other, "max_methods": 1, "max_loc": 1})
     check_kw = rng.random() < 0.7
-    return {"lang": lang, "classes": classes, "base": base, "overrides": overrides, "checkKeywords": check_kw}
+    return {"lang": lang, "classes": classes, "base": base, "overrides": overrides, "checkKeywords": check_kw,
+            "separators": [rng.choice([0, 0, 0, 1, 2, 3, 4]) for _ in range(8)]}
 
 
 def render_file(case):
     out, headers = [], []
-    for c in case["classes"]:
+    cm = "# " if case["lang"] == "py" else "// "
+    for k, c in enumerate(case["classes"]):
+        # what stands between (and before) the classes: blank lines, or lines holding characters that only str.splitlines() takes
+        # for line ends (a form-feed page break, NEL / LINE SEPARATOR / FILE SEPARATOR in a comment)
+        sep = {0: [], 1: ["\x0c"], 2: [cm + "page\u2028break"], 3: [cm + "next\x85line", "\x0c"], 4: [cm + "file\x1csep"]}[case.get("separators", [0] * 8)[k % 8]]
+        out += sep
         headers.append(len(out) + 1 + c.get("header_offset", 0))
         out += c["lines"]
         out += ["", ""]
